@@ -50,6 +50,9 @@ def vectorAcc (c : Ctx) (s esz align : Nat) : List Access :=
 /-- where `uv.value[i]` lands when the value vector is absent (a null pointer): outside every buffer -/
 def nullBase : Nat := 18446744073709551616
 
+/-- an access made through a pointer into a nested buffer that starts at byte `s` of the enclosing buffer -/
+def shiftAcc (s : Nat) (a : Access) : Access := ⟨s + a.addr, a.len, a.align⟩
+
 mutual
 def tableAcc (S : Schema) (c : Ctx) : Nat → Nat → Nat → List Access
   | 0, _, _ => []
@@ -133,6 +136,27 @@ def fieldAcc (S : Schema) (c : Ctx) (fuel table : Nat) (f : Field) : List Access
        (table + (readVt c table (f.id - 1)).1 + r32 c (table + (readVt c table (f.id - 1)).1) + 4)
        (if (readVt c table f.id).1 = 0 then nullBase
         else table + (readVt c table f.id).1 + r32 c (table + (readVt c table f.id).1) + 4))
+  | .nestedTable t _ =>
+    -- `N_f(t)` (the ubyte vector) and `N_f_as_root(t)` = `T_as_root(<pointer to the first byte of the vector>)`: from there on every
+    -- read is relative to that pointer, i.e. a read of the nested buffer's own bytes
+    if (readVt c table f.id).1 = 0 then (readVt c table f.id).2
+    else (readVt c table f.id).2 ++ ⟨table + (readVt c table f.id).1, 4, 4⟩ ::
+      (vectorAcc c (table + (readVt c table f.id).1 + r32 c (table + (readVt c table f.id).1)) 1 1 ++
+       (⟨0, 4, 4⟩ :: tableAcc S
+          (sub c (table + (readVt c table f.id).1 + r32 c (table + (readVt c table f.id).1) + 4)
+                 (r32 c (table + (readVt c table f.id).1 + r32 c (table + (readVt c table f.id).1))))
+          fuel
+          (r32 (sub c (table + (readVt c table f.id).1 + r32 c (table + (readVt c table f.id).1) + 4)
+                      (r32 c (table + (readVt c table f.id).1 + r32 c (table + (readVt c table f.id).1)))) 0) t).map
+         (shiftAcc (table + (readVt c table f.id).1 + r32 c (table + (readVt c table f.id).1) + 4)))
+  | .nestedStruct size align =>
+    -- `N_f_as_root(t)` = `S_as_root(<pointer to the first byte of the vector>)`: root offset, then the struct
+    if (readVt c table f.id).1 = 0 then (readVt c table f.id).2
+    else (readVt c table f.id).2 ++ ⟨table + (readVt c table f.id).1, 4, 4⟩ ::
+      (vectorAcc c (table + (readVt c table f.id).1 + r32 c (table + (readVt c table f.id).1)) 1 1 ++
+       [⟨table + (readVt c table f.id).1 + r32 c (table + (readVt c table f.id).1) + 4, 4, 4⟩,
+        ⟨table + (readVt c table f.id).1 + r32 c (table + (readVt c table f.id).1) + 4 +
+           r32 c (table + (readVt c table f.id).1 + r32 c (table + (readVt c table f.id).1) + 4), size, align⟩])
 
 def fieldsAcc (S : Schema) (c : Ctx) : Nat → Nat → List Field → List Access
   | _, _, [] => []
